@@ -9,5 +9,6 @@ CONSTANTS
   Confs <- ConfsSw
   Stores <- StoresNone
   Ancs <- AncsTs
+  SrcPorts <- SrcPortsEph
   RestoreAtTop = TRUE
 INVARIANTS ReplyIffValid ExactlyOne ToSender ReplyHeader NeverAnswersReply BoundedTraffic HistoryIndependence
